@@ -1033,6 +1033,92 @@ def rule_time_units(ctx, R="time-units"):
             ctx.ob(R, fi, fi.node, True, "", text="sinks-fed-with-seconds")
 
 
+def rule_md_wakeup(ctx):
+    R = "md-wakeup"
+    ctx.rep.rule(R, "the metadata synchronizer never goes to sleep owing an update that nobody can ask for again: force_metadata_update() resolves "
+                    "the wake-up future only when it creates `_md_update_fut`, so whenever _md_synchronizer reaches its timed wait with "
+                    "`_md_update_fut` pending, `_md_update_waiter` must already be resolved.  Every path of one iteration is followed from both "
+                    "wake-up states (timer: no update owed, waiter pending; forced: update owed, waiter resolved), forking at every suspension "
+                    "where a caller may force an update.  Waiters of that future include the group leader's _perform_assignment, which "
+                    "GroupCoordinator.close() -- consumer.stop() -- waits for")
+    fi = ctx.fn(f"{CLIENT}._md_synchronizer")
+    c = ctx.cfg(fi)
+    sleeps = [n for n in c.nodes if n.kind == "await" and isinstance(n.ast, ast.Await) and isinstance(n.ast.value, ast.Call) and call_attr(n.ast.value) == "wait"
+              and "_md_update_waiter" in unparse(n.ast.value)]
+    ctx.anchor(len(sleeps) == 1, "timed wait on _md_update_waiter in _md_synchronizer")
+    W = sleeps[0]
+    # the model of the other side: force_metadata_update creates the future and resolves the waiter together, under `_md_update_fut is None`
+    ff = ctx.fn(f"{CLIENT}.force_metadata_update")
+    cf = ctx.cfg(ff)
+    nts = [t for t in cf.nodes if t.kind == "test" and is_none_test(t.ast) is not None and unparse(is_none_test(t.ast)) == "self._md_update_fut"]
+    wk = [n for n in cf.nodes if n.kind == "call" and unparse(n.ast.func) == "self._md_update_waiter.set_result"]
+    mk = [n for n in cf.stores(attr="_md_update_fut")]
+    ok = len(nts) == 1 and len(wk) == 1 and len(mk) == 1 and cf.dominated_by_branch(nts[0], "T", wk[0]) and cf.dominated_by_branch(nts[0], "T", mk[0])
+    if ok:
+        # the only test between the None test and the wake-up is `not waiter.done()`
+        between = [t for t in cf.nodes if t.kind == "test" and t is not nts[0] and cf.dominates(t, wk[0])]
+        ok = all(unparse(t.ast) in ("self._md_update_waiter.done()", "not self._md_update_waiter.done()") for t in between)
+    ctx.ob(R, ff, ff.node, ok, "force_metadata_update does not wake the synchronizer exactly when it creates the update future", text="force-wakes-when-it-creates")
+    seen_bad = {}
+    n_paths = [0]
+
+    def step(node, fut, waiter, rearmed, visited):
+        """fut: 'none' | 'pending'; waiter: 'done' | 'undone'."""
+        stack = [(node, fut, waiter, rearmed, visited)]
+        while stack:
+            node, fut, waiter, rearmed, visited = stack.pop()
+            if n_paths[0] > 20000:
+                raise AnalysisError("md-wakeup: too many paths in _md_synchronizer")
+            if node is W:
+                n_paths[0] += 1
+                if fut == "pending" and waiter == "undone":
+                    seen_bad.setdefault(rearmed, node)
+                continue
+            if node in visited or node in (c.exit, c.raise_exit):
+                continue
+            visited = visited | {node}
+            states = [(fut, waiter)]
+            if node.kind == "store" and isinstance(node.ast, ast.Attribute) and unparse(node.ast) == "self._md_update_fut":
+                v = getattr(node.stmt, "value", None)
+                states = [("none" if isinstance(v, ast.Constant) and v.value is None else "pending", waiter)]
+            elif node.kind == "store" and isinstance(node.ast, ast.Attribute) and unparse(node.ast) == "self._md_update_waiter":
+                states = [(fut, "undone")]
+                rearmed = True
+            elif node.kind == "await" and fut == "none":
+                # a caller may force an update while the routine is suspended
+                states = [(fut, waiter), ("pending", "done")]
+            for m, l in node.succ:
+                if l == "exc":
+                    continue
+                for f2, w2 in states:
+                    if node.kind == "test" and is_none_test(node.ast) is not None and unparse(is_none_test(node.ast)) == "self._md_update_fut":
+                        if (l == "T") != (f2 == "none"):
+                            continue
+                    if node.kind == "test" and is_none_test(node.ast, negate=True) is not None and unparse(is_none_test(node.ast, negate=True)) == "self._md_update_fut":
+                        if (l == "T") != (f2 == "pending"):
+                            continue
+                    stack.append((m, f2, w2, rearmed, visited))
+
+    found = {}
+    for start, (f0, w0) in (("timer", ("none", "undone")), ("forced", ("pending", "done"))):
+        seen_bad.clear()
+        for m, l in W.succ:
+            if l != "exc":
+                step(m, f0, w0, False, frozenset())
+        for rearmed in seen_bad:
+            found[(start, rearmed)] = True
+    rep_paths = n_paths[0]
+    ctx.anchor(rep_paths >= 3, f"iteration paths of _md_synchronizer back to its wait ({rep_paths})")
+    for start in ("timer", "forced"):
+        for rearmed in (False, True):
+            bad = (start, rearmed) in found
+            what = ("woken by the periodic timer" if start == "timer" else "woken by force_metadata_update()")
+            how = ("after re-arming the wake-up future" if rearmed else "without having been asked through the wake-up future")
+            ctx.ob(R, fi, W, not bad, f"_md_synchronizer, {what}, can return to its timed wait {how} while `_md_update_fut` is pending: force_metadata_update() "
+                                      f"will not wake it (the future exists), every waiter of the update is parked for metadata_max_age_ms -- and stop() with them",
+                   text=f"sleeps-owing-update:{start}:{'rearmed' if rearmed else 'not-rearmed'}")
+
+
 def run(ctx):
     rep = ctx.rep
     rep.explanation = ("C19: structural clauses of 'stop() terminates and leaves nothing running' decided on the CFGs of the shutdown "
@@ -1051,6 +1137,7 @@ def run(ctx):
     rule_blocked_callers(ctx)
     rule_leave(ctx)
     rule_time_units(ctx)
+    rule_md_wakeup(ctx)
     from .common import rule_get_conn_contains
     rule_get_conn_contains(ctx, "closing-aware-retry")
     from .common import rule_instance_state
